@@ -17,7 +17,7 @@ RULE = (
     "Binomial sign-agreement test, noise power relative to the faded signal by a chi-square test; level 1e-9/2000 per test. Distinct = configuration; non-trivial = random coefficients."
 )
 ASSUMPTIONS = ["per-test level alpha = 1e-9/2000", "log-normal shadowing is judged on structure and shape only (the property makes no unit-gain claim for it)", "global torch generator seeded per case"]
-REQUIRED = ["block-constant gain", "y=h*x+n with supplied csi/noise", "shape preserved", "unit mean-square gain / K-factor", "independent across blocks and batch items", "noise calibrated on the faded signal"]
+REQUIRED = ["block-constant gain", "coefficients not shared between blocks / batch items", "y=h*x+n with supplied csi/noise", "shape preserved", "unit mean-square gain / K-factor", "independent across blocks and batch items", "noise calibrated on the faded signal"]
 JOBS = {"quick": 6, "thorough": 12}
 TIMEOUT = {"quick": 900, "thorough": 3600}
 
@@ -94,6 +94,13 @@ def run_unit(ctx, u):
                                 if bi > 0 and (blk[:, 0] - r[:, (bi - 1) * coh]).abs().min() < 1e-7:
                                     ok = False
                             ctx.check(ok, "block-constant gain", f"{cfgc}|{lay}|block-constant gain|gain varies inside a block or repeats across blocks", shape=list(shape), coherence=coh)
+                            # independently drawn coefficients are pairwise distinct with probability one: the same value in two
+                            # blocks or in two batch items means a coefficient is being shared
+                            firsts = r[:, ::coh].reshape(-1)
+                            if firsts.numel() > 1:
+                                dmat = (firsts[:, None] - firsts[None, :]).abs() + torch.eye(firsts.numel())
+                                shared = bool((dmat < 1e-7).any())
+                                ctx.check(not shared, "coefficients not shared between blocks / batch items", f"{cfgc}|{lay}|coefficients not shared between blocks / batch items|identical coefficient in two places", shape=list(shape), coherence=coh, batch=B)
                             # supplied csi and noise
                             h = torch.complex(torch.randn(B, Ltot, generator=g), torch.randn(B, Ltot, generator=g))
                             nz = torch.complex(torch.randn(B, Ltot, generator=g), torch.randn(B, Ltot, generator=g)) * 0.1
